@@ -312,6 +312,17 @@ func RunProp(t *testing.T, id string) {
 	})
 }
 
+// ReportViolation records a violation found outside rapid.Check (no shrinking) and fails the test.
+func ReportViolation(t *testing.T, id string, c any, r *Result) {
+	p := writeReplay(id, c, r)
+	mu.Lock()
+	failed[id] = true
+	stats(id).Violations = []ViolRec{{Sig: r.Sig, Msg: r.Viol, Replay: p}}
+	mu.Unlock()
+	Flush()
+	t.Fatalf("VIOLATION %s [%s]: %s", id, r.Sig, r.Viol)
+}
+
 // RunEnum executes an explicit list/stream of cases (bounded-exhaustive mode).
 func RunEnum(t *testing.T, id string, next func() (any, bool)) {
 	sp := registry[id]
